@@ -1,7 +1,7 @@
 """Per-property configuration of the checks: which engine runs what, with which bounds."""
 
-def krun(filters, flags=(), timeout=300, bounds=''):
-    return {'filters': list(filters), 'flags': list(flags), 'timeout': timeout, 'bounds': bounds}
+def krun(filters, flags=(), timeout=300, bounds='', jobs=None):
+    return {'filters': list(filters), 'flags': list(flags), 'timeout': timeout, 'bounds': bounds, 'jobs': jobs}
 
 LEAK = ['-Z', 'unstable-options', '--cbmc-args', '--memory-leak-check']
 
@@ -147,7 +147,7 @@ PROPS['C19'] = {
 PROPS['C01'] = {
     'kani': {
         'quick': [krun(['c01::q::', 'gen_c01::q::', 'c10::q::native::'], timeout=900, bounds='element addresses at a symbolic index for N <= 8 over u8,u32,u64,(u8,u16),A16(align 16),Z8(aligned ZST),(),[u8;3],[u64;3]; type-level size/alignment equalities for every N in 0..=64 and 127..1024 boundary values (u8, (u8,u16)), N <= 33 (A16, Z8), and every typenum-named 2^k, 2^k-1, 10^k up to 2^63 (u8 up to 2^60, aligned ZST above)')],
-        'thorough': [krun(['c01::', 'gen_c01::', 'c10::q::native::', 'c10::t::native::'], timeout=2400, bounds='quick + every N in 0..=1024 for u8,(u8,u16),A16; 0..=256 for [u64;3]; element addresses up to N = 65')],
+        'thorough': [krun(['c01::', 'gen_c01::', 'c10::q::native::', 'c10::t::native::'], timeout=2400, jobs=6, bounds='quick + every N in 0..=1024 for u8,(u8,u16),A16; 0..=256 for [u64;3]; element addresses up to N = 65')],
     },
     'functions': ['GenericArray (repr(transparent))', 'GenericArrayImplEven / GenericArrayImplOdd (repr(C))', 'ArrayLength::ArrayType for UTerm/UInt<N,B0>/UInt<N,B1>', 'GenericArray::{as_slice, as_ref::<[T;N]>}', 'ConstDefault for the storage nodes'],
     'bounds': 'K validates against rustc; L (layout induction) is the deciding step for all N.',
